@@ -2163,6 +2163,7 @@ func runC09(c *core.Ctx) {
 	// ---- row groups: large file-backed inputs with small pages (refinement path), refined and unrefined plans.
 	// Every other case is built around the boundary cases of the cut lookups (c09GenTie).
 	nBig := c.N(60, 700)
+	bigFailed := map[string]int{}
 	for i := 0; i < nBig; i++ {
 		var proto *c09Case
 		if i%2 == 1 {
@@ -2180,8 +2181,10 @@ func runC09(c *core.Ctx) {
 			cs := &c09Case{Kind: "groups", Cols: cols, Inputs: ins, Batches: batches, Backing: backing, PageBuf: pageBuf, NoRefine: noRefine, Note: proto.Note}
 			var info c09GroupsInfo
 			ok := true
+			c09Fail = ""
 			if c.Probe(func() { c09CheckGroups(c, cs, &info) }) {
 				ok = false
+				bigFailed[proto.Note+": "+c09Fail]++
 				min := c09Shrink(c, cs)
 				c09Check(c, min)
 			}
@@ -2222,6 +2225,14 @@ func runC09(c *core.Ctx) {
 	c.Note("large file-backed cases in which refinement sliced at least one row-range view: %d of %d", fired, nBig)
 	c.Note("refined plans compared with the model (corr:C09.refine): %d, of which %d contain a row-range part; not compared because of the size limit (%d rows per input, %d in total): %d", c09Stats.compared, c09Stats.sliced, c09RefineMaxInput, c09RefineMaxTotal, c09Stats.tooBig)
 	c.Note("what the planner sees of the inputs: MergeRowGroups wraps every input with ConvertRowGroup, which returns the row group itself when the schemas are equal (EqualNodes) and otherwise keeps the source column chunk (same position) or forwards ColumnIndex()/OffsetIndex() to it (convertedColumnChunk); the harness probes the wrapped row groups: %d inputs were wrapped in this run. A parquet.Buffer's column chunk returns a one-page column index (min/max of all values, NullPage only when every value is null) and a one-page offset index, so newCutLookups returns lookups for it (cutAbove/cutBelow are 0 or NumRows): non-empty Buffer inputs %d, with lookups %d, with a one-page layout %d", c09Stats.converted, c09Stats.bufferInputs, c09Stats.bufferCuts, c09Stats.bufferOnePage)
+	if len(bigFailed) > 0 {
+		var fs []string
+		for k, n := range bigFailed {
+			fs = append(fs, fmt.Sprintf("%s x%d", k, n))
+		}
+		sort.Strings(fs)
+		c.Note("large file-backed cases that failed, by shape and kind of failure: %s", strings.Join(fs, "; "))
+	}
 	if c09Stats.indexOdd != "" {
 		c.Note("unexpected page index shape: %s", c09Stats.indexOdd)
 	}
